@@ -255,10 +255,10 @@ impl Version {
                 0 <= idx0 <= level0@.len(), level0@.len() == v.levels@[0].ssts@.len(), !*is_tombstone,
                 forall|x: SstMetadata| level0@.contains(x) <==> v.levels@[0].ssts@.contains(x),
                 forall|i: int, j: int| 0 <= i < j < level0@.len() ==> level0@[i].big() <= level0@[j].big(),
-                forall|j: int| idx0 <= j < level0@.len() ==> !has_le(#[trigger] level0@[j].ents(), k, t),
+                /* contract-inv */ forall|j: int| idx0 <= j < level0@.len() ==> !has_le(#[trigger] level0@[j].ents(), k, t),
             decreases idx0,
 //@ >>
-//@ before#1 `return Ok(ret);` <<
+//@ before#1? `return Ok(ret);` <<
                 proof {
                     assert forall|e: Entry| is_newest(level0@[idx0 as int].ents(), k, t, e) && ordered(v) implies is_newest(all_ents(v), k, t, e) by {
                         lemma_hit_l0(v, level0@, idx0 as int, k, t, e);
@@ -269,7 +269,7 @@ impl Version {
 //@ loop 1 <<
             invariant
                 1 <= idxl <= v.levels@.len(), !*is_tombstone,
-                forall|i: int| 0 <= i < idxl ==> !has_le(#[trigger] level_ents(v.levels@[i]), k, t),
+                /* contract-inv */ forall|i: int| 0 <= i < idxl ==> !has_le(#[trigger] level_ents(v.levels@[i]), k, t),
             decreases v.levels@.len() - idxl,
 //@ >>
 //@ before `let mut level0 = ` <<
@@ -278,11 +278,11 @@ impl Version {
 //@ loop 2 <<
                 invariant
                     lower_bound <= idxs <= upper_bound <= level.ssts@.len(), !*is_tombstone, 1 <= idxl - 1 < v.levels@.len(), level == &v.levels@[idxl - 1],
-                    forall|j: int| lower_bound <= j < idxs ==> !has_le(#[trigger] level.ssts@[j].ents(), k, t),
+                    /* contract-inv */ forall|j: int| lower_bound <= j < idxs ==> !has_le(#[trigger] level.ssts@[j].ents(), k, t),
                     forall|i: int| 0 <= i < idxl - 1 ==> !has_le(#[trigger] level_ents(v.levels@[i]), k, t),
                 decreases upper_bound - idxs,
 //@ >>
-//@ before#2 `return Ok(ret);` <<
+//@ before#2? `return Ok(ret);` <<
                     proof {
                         assert forall|e: Entry| is_newest(level.ssts@[idxs - 1].ents(), k, t, e) && ordered(v) implies is_newest(all_ents(v), k, t, e) by {
                             lemma_hit_level(v, idxl - 1, idxs - 1, k, t, e);
@@ -403,10 +403,10 @@ impl KeyValueStore {
         let ghost rest1 = ISet::new(|e: Entry| (sn.imm is Some && sn.imm->Some_0.ents().contains(e)) || tree.contains(e));
         let ghost all = snap_ents(sn);
 //@ >>
-//@ before#1 `return Ok(ret);` <<
+//@ before#1? `return Ok(ret);` <<
             proof { lemma_first_of(sn.mem.ents(), rest1, all, k, sn.timestamp, ret, *is_tombstone); }
 //@ >>
-//@ before#2 `return Ok(ret);` <<
+//@ before#2? `return Ok(ret);` <<
                 proof {
                     lemma_first_of(sn.imm->Some_0.ents(), tree, rest1, k, sn.timestamp, ret, *is_tombstone);
                     lemma_skip(sn.mem.ents(), rest1, all, k, sn.timestamp, ret, *is_tombstone);
